@@ -1,0 +1,11 @@
+//go:build !verif
+
+package llmsetup
+
+import "os"
+
+// verifPoint is a no-op unless built with the verif tag.
+func verifPoint(string) error { return nil }
+
+// verifPartial is a no-op unless built with the verif tag.
+func verifPartial(*os.File, []byte) {}
